@@ -437,8 +437,16 @@ EXTRA = [",9", " , x", ":tail", ", 1, 2"]
 C08_FORCED = [("A$", "str", INPUT_FORMS[0], rep, lit, ex)
               for rep, lit in (("日本", '"日本"'), ("éé", '"éé"'), ("héllo wörld", '"héllo wörld"'), ("😊", '"😊"'), ("é", '"é"'))
               for ex in (":x", ":", ", y", " :tail")]
-C08_FORCED += [(tg, kd, INPUT_FORMS[k], rep, lit, "") for k in (-3, -2, -1)
+# INPUT as a clause of an inner IF with the ELSE of an outer IF behind it: the resumed statement meets an ELSE whose
+# nearest THEN is not the first THEN or ELSE to its left (seeded change C08-mut8 showed these were missing)
+NESTED_INPUT_FORMS = ["{n} IF 1 THEN IF 0 THEN PRINT \"A\" ELSE INPUT {v} ELSE PRINT \"B\"",
+                      "{n} IF 1 THEN IF 1 THEN INPUT {v} ELSE PRINT \"A\" ELSE PRINT \"B\"",
+                      "{n} IF 0 THEN PRINT \"A\" ELSE IF 1 THEN INPUT {v} ELSE PRINT \"B\"",
+                      "{n} X = 0 : IF X THEN PRINT \"A\" ELSE IF X THEN PRINT \"B\" ELSE INPUT {v} : PRINT \"t5\"",
+                      "{n} IF 1 THEN IF 1 THEN IF 0 THEN PRINT \"A\" ELSE INPUT {v} ELSE PRINT \"B\" ELSE PRINT \"C\""]
+C08_FORCED += [(tg, kd, f, rep, lit, "") for f in INPUT_FORMS[-3:] + NESTED_INPUT_FORMS
                for tg, kd, rep, lit in (("X", "num", "7", "7"), ("N(I)", "num", "5", "5"), ("A$", "str", "hello", '"hello"'))]
+INPUT_FORMS += NESTED_INPUT_FORMS
 
 
 def run_c08(chk):
